@@ -17,7 +17,8 @@
      all derived from the one comparison the codecs take as parameter (Exec.quad_cmp / cubic_cmp).
    Point cases: deg = 3 is Fp[u]/(u^3 - nr).
    Every op that serialises returns the bytes AND the advertised size (c_size / c_sizep / sw_size / te_size);
-   the decode ops 3, 4 return [value; (flag;) consumed; re-encoding; advertised size].
+   the decode ops 3, 4 return [value; (flag;) consumed; re-encoding] from run_field (format shared with C10) and
+   run_C09 appends [advertised size] (run_field_sz).
    Errors: [1; kind] with kind as in Bytes.v. *)
 From V Require Import Base.Field C09.Bytes C09.FpCodec C09.PointCodec C09.Exec.
 
@@ -69,7 +70,7 @@ Section RunField.
   Definition de_flags (FT : FlagTy) (code : ft_T FT -> Z) (bs : list Z) : list (list Z) :=
     out_res (c_dec C FT bs) (fun r =>
       let x := fst (fst r) in let f := snd (fst r) in
-      [tw_to W x; [code f]; [zlen bs - zlen (snd r)]; bytes_of (c_enc C FT x f) (fun b => b); [c_size C FT]]).
+      [tw_to W x; [code f]; [zlen bs - zlen (snd r)]; bytes_of (c_enc C FT x f) (fun b => b)]).
 
   Definition run_field (op : Z) (a : list (list Z)) : list (list Z) :=
     let ft := argz 0 2 a in
@@ -90,13 +91,33 @@ Section RunField.
            | _ => unsupported
            end
     | 4 => out_res (c_decp C payload) (fun r =>
-             [tw_to W (fst r); [zlen payload - zlen (snd r)]; bytes_of (c_encp C (fst r)) (fun b => b); [c_sizep C]])
+             [tw_to W (fst r); [zlen payload - zlen (snd r)]; bytes_of (c_encp C (fst r)) (fun b => b)])
     | 9 => let c := tw_cmp W (tw_of W payload) (tw_of W (arg 4 a)) in
            let code := match c with Lt => 0 | Eq => 1 | Gt => 2 end in
            let lt := match c with Lt => 1 | _ => 0 end in
            let le := match c with Gt => 0 | _ => 1 end in
            ok [[code]; [code]; [lt; le; 1 - le; 1 - lt]]
     | _ => unsupported
+    end.
+
+  (* run_field plus, for the decode ops 3 / 4 (which re-serialise the decoded value), the size advertised for it
+     by serialized_size_with_flags / serialized_size, appended to a successful result.  Kept out of run_field:
+     package C10 reuses run_field's op 4 output format verbatim. *)
+  Definition run_field_sz (op : Z) (a : list (list Z)) : list (list Z) :=
+    let r := run_field op a in
+    match r with
+    | [0] :: _ =>
+      match op with
+      | 3 => match argz 0 2 a with
+             | 0 => r ++ [[c_size C EmptyFlags]]
+             | 1 => r ++ [[c_size C SWFlags]]
+             | 2 => r ++ [[c_size C TEFlags]]
+             | _ => r
+             end
+      | 4 => r ++ [[c_sizep C]]
+      | _ => r
+      end
+    | _ => r
     end.
 End RunField.
 
@@ -176,7 +197,7 @@ Definition run_C09 (op : Z) (a : list (list Z)) : list (list Z) :=
   let p := argz 1 0 a in
   if (op <=? 4) || (op =? 9) then
     match tower_of N p (argz 2 0 a) with
-    | Some W => run_field W op a
+    | Some W => run_field_sz W op a
     | None => unsupported
     end
   else
